@@ -376,6 +376,12 @@ def main():
     for i, sh in enumerate(shards):
         n, d, ch = emit_crate(os.path.join(out, "s%d" % i), "%s_s%d" % (crate, i), sh)
         tot = [tot[0] + n, tot[1] + d, tot[2] or ch]
+    # shard crates of an earlier run with more shards are no longer part of the build
+    import shutil, re
+    for d in os.listdir(out):
+        m = re.fullmatch(r"s(\d+)", d)
+        if m and int(m.group(1)) >= nsh:
+            shutil.rmtree(os.path.join(out, d))
     deps = "\n".join('%s_s%d = { path = "../s%d" }' % (crate, i, i) for i in range(nsh))
     write_if_changed(os.path.join(out, "all", "Cargo.toml"),
         '[package]\nname = "%s"\nversion = "0.1.0"\nedition = "2021"\n\n[dependencies]\nvcommon = { path = "../../common" }\n%s\n' % (crate, deps))
